@@ -9,7 +9,10 @@ import TracklibVerif.Model.SeqOps
    `track = track + (edge_geom > 1)`. `Lemmas/GraphPathExt.lean` proves that its points are those of the
    list-level model (`TV.Graph.runBackward`) and that the returned track has an empty feature table.
 
-2. the front ends and the state they leave on the `Network` object: `__correctInputNode` (a node is given by
+2. `Network.addNode` / `Network.addEdge` as they fill `NODES`, `EDGES` and `NEXT_EDGES` (`NetObj`, `build`); the lemmas show
+   that the loop over `NEXT_EDGES[pere]` of a network built that way is the loop over the model's `nextEdges`.
+
+3. the front ends and the state they leave on the `Network` object: `__correctInputNode` (a node is given by
    id or as a `Node` object), `__resetFlags`, `run_routing_forward`, `shortest_distance`, `shortest_path`,
    `run_routing_backward` as operations of a SESSION on one network: the node flags (`poids`, `visite`,
    `antecedent`, `antecedent_edge`) persist between calls, as does a caller-supplied `output_dict`. -/
@@ -72,6 +75,46 @@ def liftBack : Back Seq.Obs → BackT
   | .none => .none
   | .diverge => .diverge
   | .path nodes g => .path nodes ⟨g, []⟩
+
+/-! ### `Network.addNode` / `Network.addEdge`: what routing reads of a network built edge by edge -/
+
+/-- the part of a `Network` object that routing reads -/
+structure NetObj (W P : Type) where
+  nodes : List (Nat × P)     -- NODES in insertion order: (id, coord)
+  edges : List (Edge W)      -- EDGES in insertion order; `src` / `tgt` = ids of `edge.source` / `edge.target` (the REGISTERED nodes)
+  next : Nat → List Nat      -- NEXT_EDGES[id]: edge ids in insertion order
+
+def NetObj.empty {W P : Type} : NetObj W P := { nodes := [], edges := [], next := fun _ => [] }
+
+/-- `addNode(node)`: `if node.id not in self.NODES:` register it (the first registration wins), `NEXT_EDGES[id] = []` -/
+def addNode {W P : Type} (nb : NetObj W P) (id : Nat) (coord : P) : NetObj W P :=
+  if nb.nodes.any (fun p => p.1 == id) then nb else { nb with nodes := nb.nodes ++ [(id, coord)] }
+
+/-- `addEdge(edge, source, target)` (`sc`, `tc`: the coordinates of the two `Node` arguments): both nodes are registered
+if they are not yet, `edge.source` / `edge.target` become the registered nodes, the edge is stored, its id is appended
+to `NEXT_EDGES[source.id]` when `orientation >= 0` and to `NEXT_EDGES[target.id]` when `orientation <= 0` -/
+def addEdge {W P : Type} (nb : NetObj W P) (e : Edge W) (sc tc : P) : NetObj W P :=
+  let nb := addNode (addNode nb e.src sc) e.tgt tc
+  let nb : NetObj W P := { nb with edges := nb.edges ++ [e] }
+  let nb : NetObj W P := if 0 ≤ e.ori then { nb with next := fun u => if u = e.src then nb.next u ++ [e.id] else nb.next u } else nb
+  if e.ori ≤ 0 then { nb with next := fun u => if u = e.tgt then nb.next u ++ [e.id] else nb.next u } else nb
+
+/-- a network built by successive `addEdge` calls -/
+def build {W P : Type} (nb : NetObj W P) : List (Edge W × P × P) → NetObj W P
+  | [] => nb
+  | (e, sc, tc) :: r => build (addEdge nb e sc tc) r
+
+/-- `NODES[v].coord` -/
+def posOf {W P : Type} (nb : NetObj W P) (v : Nat) : Option P := (nb.nodes.find? (fun p => p.1 == v)).map (·.2)
+
+/-- what `addEdge` appends to `NEXT_EDGES[u]` for the edge `e` (its id twice for a two-way edge from `u` to `u`) -/
+def nextOf {W : Type} (e : Edge W) (u : Nat) : List Nat :=
+  (if 0 ≤ e.ori ∧ e.src = u then [e.id] else []) ++ (if e.ori ≤ 0 ∧ e.tgt = u then [e.id] else [])
+
+/-- the edges that `for edge_id in NEXT_EDGES[u]: e = EDGES[edge_id]` visits, in order: every edge once per entry of its
+id in `NEXT_EDGES[u]` — a two-way edge from `u` to `u` is visited twice (the model's `nextEdges` has it once) -/
+def pyNext {W : Type} (net : Net W) (u : Nat) : List (Edge W) :=
+  net.edges.flatMap (fun e => (if 0 ≤ e.ori ∧ e.src = u then [e] else []) ++ (if e.ori ≤ 0 ∧ e.tgt = u then [e] else []))
 
 /-! ### the front ends as operations on one `Network` object -/
 
